@@ -257,6 +257,12 @@ struct Ctx {
   }
 };
 
+}  // namespace vh
+#ifdef VH_WITH_RC
+namespace rcg { bool run(const std::string& gen, const std::function<bool(const vh::Case&)>& oracle, vh::Case& minimal, uint64_t* generated); }
+#endif
+namespace vh {
+
 // A driver implements these two.
 struct Driver {
   const char* name;
@@ -268,7 +274,7 @@ struct Driver {
 
 static inline int driver_main(int argc, char** argv, const Driver& drv) {
   Ctx ctx; ctx.driver = drv.name;
-  std::string replay, outpath, journalpath;
+  std::string replay, outpath, journalpath, rcgen;
   for (int i = 1; i < argc; i++) {
     std::string a = argv[i];
     auto val = [&]() -> std::string { return i + 1 < argc ? argv[++i] : ""; };
@@ -283,6 +289,7 @@ static inline int driver_main(int argc, char** argv, const Driver& drv) {
     else if (a == "--faildir") ctx.faildir = val();
     else if (a == "--hashfile") ctx.hashfile = val();
     else if (a == "--replay") replay = val();
+    else if (a == "--rc") rcgen = val();
     else { fprintf(stderr, "unknown argument %s\n", a.c_str()); return 2; }
   }
   if (ctx.prop.empty()) { fprintf(stderr, "--prop required\n"); return 2; }
@@ -296,6 +303,33 @@ static inline int driver_main(int argc, char** argv, const Driver& drv) {
     return r.ok ? 0 : 1;
   }
   if (!journalpath.empty()) ctx.journal.open(journalpath.c_str());
+  if (!rcgen.empty()) {
+#ifdef VH_WITH_RC
+    // rapidcheck front end: the same oracle, cases drawn (and on failure shrunk) by rapidcheck
+    ctx.distinct_by_construction = false;
+    Case minimal; uint64_t generated = 0;
+    bool ok = rcg::run(rcgen, [&](const Case& c) {
+      ctx.journal.set(c, ++ctx.seq);
+      Result r = drv.run_case(ctx.prop, c);
+      ctx.journal.clear();
+      ctx.evaluations++; ctx.per_campaign["RC-" + rcgen]++;
+      if (r.skipped) { ctx.skipped++; return true; }
+      if (r.klass && *r.klass) ctx.classes[r.klass]++;
+      if (r.nontrivial && r.ok) { if (ctx.nt_hashes.size() < (1u << 22)) ctx.nt_hashes.insert(case_hash(c)); uint64_t k = ++ctx.nt_per_campaign[rcgen]; if ((k == 1 || k == 50 || k == 1000) && ctx.samples.size() < ctx.max_samples) ctx.samples.push_back("RC-" + rcgen + " " + ctx.describe(c)); }
+      return r.ok;
+    }, minimal, &generated);
+    if (!ok) {
+      Result r = drv.run_case(ctx.prop, minimal);
+      char name[64]; snprintf(name, sizeof name, "%016llx", (unsigned long long)case_hash(minimal));
+      std::string path = ctx.faildir + "/" + ctx.prop + "-rc-" + name + ".case";
+      write_case_file(path, ctx.prop, ctx.driver, minimal, "(shrunk by rapidcheck) " + r.msg);
+      ctx.failures.push_back(path);
+    }
+    ctx.notes["RC-" + rcgen] = "rapidcheck generator '" + rcgen + "' (src/gen/rc_cases.cpp), configured through RC_PARAMS; failures are shrunk by rapidcheck before the replay file is written";
+#else
+    fprintf(stderr, "this binary was built without rapidcheck\n"); return 2;
+#endif
+  } else
   drv.run_campaigns(ctx);
   FILE* out = outpath.empty() ? stdout : fopen(outpath.c_str(), "w");
   if (!out) out = stdout;
